@@ -420,6 +420,18 @@ func c06Pods(cfg world.Config, ips []string) []c06Pod {
 			}
 		}
 	}
+	// a pod that already holds the IP of one of its two requested ranges (either position)
+	for i, a := range ips {
+		for j, b := range ips {
+			if i != j {
+				s := stsImm
+				s.Ranges = `[["` + a + `"],["` + b + `"]]`
+				out = append(out, c06Pod{Name: "held-range2:" + a + "+" + b, Spec: s, Holder: a})
+				s.Ranges = `[["` + b + `"],["` + a + `"]]`
+				out = append(out, c06Pod{Name: "held-range2:" + b + "+" + a + "/second", Spec: s, Holder: a})
+			}
+		}
+	}
 	if len(ips) > 1 {
 		s := sts
 		s.Ranges = `[["` + ips[0] + `","` + ips[len(ips)-1] + `"]]`
@@ -546,7 +558,7 @@ func c06CaseR(r *caseResult, scen string, ci int, cfg world.Config, ips, busy []
 		if ferr == nil && fmt.Sprint(want) != fmt.Sprint(offered) {
 			r.violate("C06", scen, class, "offered-set-differs-from-free-routable-nodes", "filter", fmt.Sprintf("%s: offered %v, nodes with a free routable IP %v", desc, offered, want), []string{desc})
 		}
-	case "holder":
+	case "holder", "held-range2":
 		for _, n := range offered {
 			if !routableNodes(cfg, pd.Holder)[n] {
 				r.violate("C06", scen, class, "holder-offered-unroutable-node", "filter", fmt.Sprintf("%s: offered %v", desc, offered), []string{desc})
@@ -608,7 +620,7 @@ func init() {
 	replayers["C08"] = replayDescOnly
 	register(&Property{ID: "C06", Level: "model_checking", QuickS: 100, ThoroughS: 900,
 		Assume: append([]string{"pool shapes from a 6-entry menu (node subnets pairwise identical or disjoint), 4 nodes (one per node subnet + one outside)"}, assumeIPAM...),
-		Rule: "all configurations of 1..P pools from the shape menu x all allocation states with at most B busy IPs x pods {fresh default, holder of each IP, 1 and 2 requested single-IP ranges, two-segment range, immutable deployment with each reserve IP}; " +
+		Rule: "all configurations of 1..P pools from the shape menu x all allocation states with at most B busy IPs x pods {fresh default, holder of each IP, 1 and 2 requested single-IP ranges, two-segment range, holder of one of two requested ranges, immutable deployment with each reserve IP}; " +
 			"state = (configuration, allocation state, pod); transitions = the real Filter and, for every offered node, the real Bind on a replayed copy; reference = set arithmetic over the configuration",
 		Jobs: func(tier string) []Job {
 			p, b := 3, 3
